@@ -117,7 +117,7 @@ def check_parse(L):
 
 LEAVES = ['a', 'x' * 100, 'a-b-c', '"a b"', '"a""b"', '"("', '";"', '|q r|',
           '|a\nb|', '; c\n', '#b01', ':kw', '"a \n;b"', '|x \n; y|',
-          '"  two  "']
+          '"  two  "', '; e']  # last: a comment that ends the input
 
 
 def build(pl):
@@ -144,12 +144,22 @@ def render_all(exprs, tmpdir):
     return out
 
 
+def _final_comment_unterminated():
+    """Does the real parser return a comment that ends the input without a
+    line break as a leaf without terminator?  (Asked of the parser, so that
+    the lists C07 quantifies over are those it really returns.)"""
+    return plain(list(nodeio.parse_smtlib(';c'))) == [';c']
+
+
 def obtainable(forest):
-    """Could the parser return this list?  Comments end with a newline unless
-    they are the very last lexeme; no empty leaves."""
+    """Could the parser return this list?  A comment leaf carries its line
+    terminator; one without can only be the very last lexeme, and only if the
+    parser keeps such a comment as it stands; no empty leaves."""
     fl = ref.flat(forest)
+    last_ok = _final_comment_unterminated()
     for i, t in enumerate(fl):
-        if t.startswith(';') and not t.endswith('\n') and i != len(fl) - 1:
+        if t.startswith(';') and not t.endswith('\n') and \
+                (i != len(fl) - 1 or not last_ok):
             return False
     return True
 
@@ -178,7 +188,8 @@ def one_render_case(rec, forest, tmpdir):
                           f'{toks[:12]!r} vs {want_flat[:12]!r}')
             continue
         back = plain(list(nodeio.parse_smtlib(text)))
-        if norm(back) != norm(forest):
+        # C07: structurally identical, comments included - no normalisation
+        if back != forest:
             rec.violation(f'C07/native/reparse[{mode}]',
                           {'input': forest, 'rendering': text[:200]},
                           f're-parsed as {back!r}')
